@@ -85,7 +85,7 @@ func build(config string) core.BuildFunc {
 								w.Fail("SMOKE", "wrong reply %q", s)
 							}
 							okc++
-							time.Sleep(time.Duration(1+c) * time.Second)
+							core.Sleep(time.Duration(1+c) * time.Second)
 						}
 					})
 				}
